@@ -1106,7 +1106,8 @@ decl(struct scope *s, struct func *f)
 				if (d->defined)
 					error(&tok.loc, "function '%s' redefined", name);
 				/* re-open scope from function declarator */
-				assert(funcscope);
+				if (!funcscope)
+					error(&tok.loc, "function '%s' is defined without a function declarator", name);
 				s = funcscope;
 				f = mkfunc(d, name, t, s);
 				stmt(f, s);
